@@ -42,7 +42,7 @@ func main() {
 		fmt.Println("usage: vcheck run|worker|replay|list ...")
 		os.Exit(2)
 	}
-	opt := map[string]string{"tier": "quick", "seed": "0", "deadline": "0", "instr": ""}
+	opt := map[string]string{"tier": "quick", "seed": "0", "deadline": "0", "instr": "", "index": "0"}
 	var pos []string
 	for i := 1; i < len(args); i++ {
 		if len(args[i]) > 2 && args[i][:2] == "--" && i+1 < len(args) {
@@ -68,6 +68,10 @@ func main() {
 		}
 		self, _ := os.Executable()
 		os.Exit(harness.ParentMain(pos[0], opt["tier"], seed, self, opt["instr"]))
+	case "unit-json":
+		dl, _ := strconv.ParseInt(opt["deadline"], 10, 64)
+		ix, _ := strconv.Atoi(opt["index"])
+		harness.UnitJSONMain(pos[0], opt["tier"], seed, ix, dl)
 	case "worker":
 		dl, _ := strconv.ParseInt(opt["deadline"], 10, 64)
 		harness.WorkerMain(pos[0], opt["tier"], seed, dl)
